@@ -201,9 +201,27 @@ class Driver:
                 j["st"] = "CA" if st == "CANCELLED" else "FAIL"
                 self.events.append({"act": "JobVanished", "t": j["tgt"], "j": j["id"], "st": st})
 
+    def read_tracked(self):
+        """The target -> job id map as gwf itself would load it in its next invocation (whatever files it keeps it
+        in); None = nothing recorded, "UNREADABLE" = gwf's own loader fails on what is on disk."""
+        try:
+            from gwf.backends.base import TrackingBackend
+
+            class _NoScheduler:
+                def get_job_states(self, ids):
+                    return {}
+
+            tb = TrackingBackend(working_dir=self.sb.proj, name=self.gwf_backend, ops=_NoScheduler())
+            d = getattr(tb, "_tracked_jobs")
+            return dict(d) if d else None
+        except (ValueError, OSError):
+            return "UNREADABLE"
+        except Exception:  # noqa: BLE001   (the loader's interface changed: fall back to the documented file)
+            return self.sb.read_json(".gwf/%s-backend-tracked.json" % self.gwf_backend)
+
     def after(self):
         sb = self.sb
-        trk_raw = sb.read_json(".gwf/%s-backend-tracked.json" % self.gwf_backend)
+        trk_raw = self.read_tracked()
         hsh_raw = sb.read_json(".gwf/spec-hashes.json")
         trk_ok = trk_raw != "UNREADABLE"
         hsh_ok = hsh_raw != "UNREADABLE"
